@@ -269,15 +269,21 @@ int32_t tls13FindSessionPsk(ssl_t *ssl,
 
         if (idLen >= 16 + 12 + 16)
         {
+            /* the key list and the key are used under the ticket key lock */
+            matrixSslLockSessionTicketKeys();
             key = ssl->keys->sessTickets;
             while (key)
             {
                 if (!Memcmp(id, key->name, 16))
                 {
-                    return tls13DecryptTicket(ssl, key, id, idLen, pskOut);
+                    int32_t rc = tls13DecryptTicket(ssl, key, id, idLen,
+                            pskOut);
+                    matrixSslUnlockSessionTicketKeys();
+                    return rc;
                 }
                 key = key->next;
             }
+            matrixSslUnlockSessionTicketKeys();
         }
 #  endif
     }
